@@ -16,7 +16,7 @@ from driver import run_batch
 from wire import to_wire, canon, exc_class
 from props.common import scale, depth_of, schema_tags, load_corpus
 
-THEOREMS = ["c08_match_eq_spec", "c08_pick_eq_spec", "c08_resolve_eq_spec", "c08_identity", "c08_errors"]
+THEOREMS = ["c08_promotions", "c08_primitives", "c08_enum_default", "c08_field_matching", "Tables.resolve_tables", "Tables.resolve_dispatch"]
 TARGETS = ["Properties.TablesResolve", "Properties.C08"]
 
 PROMO = {"int": ["long", "float", "double"], "long": ["float", "double"], "float": ["double"],
@@ -491,6 +491,21 @@ def run(tier, seed):
                 or ("err" in ir and (ir["err"] == "resolution") != (mo.get("err") == "resolution")):
             case["impl"], case["model"] = ir, mo
             run.fail(case, "correspondence: resolution differs between implementation and model", kind="correspondence")
+    # ---- reader-only fields whose default is not its own Python datum (bytes / fixed / nested record)
+    for wtype, dflt, expect in [("bytes", "\u00ff", {"b": "ff"}), ({"type": "fixed", "name": "Fx", "size": 1}, "\u00ff", {"b": "ff"}),
+                                ({"type": "record", "name": "In", "fields": [{"name": "x", "type": "int", "default": 3}]}, {},
+                                 {"d": [[{"s": "78"}, {"i": "3"}]]})]:
+        w = {"type": "record", "name": "R", "fields": [{"name": "a", "type": "int"}]}
+        rs = {"type": "record", "name": "R", "fields": [{"name": "a", "type": "int"}, {"name": "dflt", "type": wtype, "default": dflt}]}
+        ir = impl_resolve(w, rs, _enc(w, {"a": 1}))
+        run.cov["evaluations"] += 1
+        got = None
+        if "ok" in ir:
+            got = dict((json.dumps(k), v) for k, v in canon(ir["ok"])["d"]).get(json.dumps({"s": "64666c74"}))
+        if got != canon(expect):
+            run.fail({"writer": w, "reader": rs, "impl": ir, "expected_default": expect, "tags": ["default-conversion"]},
+                     "reader-only field: the default is returned as the raw JSON value, not as a datum of the field's type",
+                     kind="oracle")
     # ---- container reader on a sample of the cases
     step = max(1, len(cases) // scale(tier, 250))
     for ci in range(0, len(cases), step):
